@@ -21,15 +21,16 @@ def scripts(tier, seed, xsd=False):
             for root in [''] + d['comps']:
                 if xsd and not root:
                     continue
-                for derived in ([False, True] if (k % 3 == 0 and not xsd) else [bool(k % 2) and not xsd]):
+                # (C20: referred key attributes may be derived there, so the component part asks for derived attributes)
+                for derived in ([False, True] if (k % 3 == 0 and not xsd) else [bool(k % 2) or xsd]):
                     items.append({'d': d, 'root': root, 'derived': derived, 'route': ROUTES[k % len(ROUTES)],
                                   'shuffle': bool(k % 2), 'seed': rnd.randint(0, 10 ** 6), 'via': ['loader', 'mk'][k % 2],
                                   'xsd': (['tree', 'main'][k % 5 == 0] if xsd else ''), 'trail': list(trail)})
                     k += 1
-            nd, kind = bpgen.edit(d, rnd)
+            nd, kind = bpgen.edit(d, rnd, derived_keys=xsd)
             tries = 0
             while nd is None and tries < 10:
-                nd, kind = bpgen.edit(d, rnd)
+                nd, kind = bpgen.edit(d, rnd, derived_keys=xsd)
                 tries += 1
             if nd is None:
                 break
